@@ -37,10 +37,10 @@ out.append('\\* punctuators: every bracket, separators, the attribute marker, op
 out.append('\\* the preprocessor marker, quote characters (unterminated literal), a newline')
 out.append('MCPuncts == {"(", ")", "{", "}", "[", "]", ";", ",", ":", "@", "=", "<", "+", "++", "*", "&",')
 out.append('             ".", "?", "->", "#", "\\"", "\'", "\\\\", "\\n"}')
-out.append('\\* words: keywords, attributes, a number, an identifier, a type')
+out.append('\\* words: keywords, attributes, numbers (7 is out of range as a loop index), an identifier, a type')
 out.append('MCWords == {"for", "if", "else", "while", "return", "int", "const", "struct", "void",')
 out.append('            "@outer", "@inner", "@shared", "@exclusive", "@kernel", "@tile", "@dim", "@barrier",')
-out.append('            "@atomic", "0", "x", "#define", "#if"}')
+out.append('            "@atomic", "0", "7", "x", "#define", "#if"}')
 out.append('MCBrackets == {"(", ")", "{", "}", "[", "]"}')
 out.append("=============================================================================")
 open("/verif/spec/mc/MC_OklMutate.tla","w").write("\n".join(out)+"\n")
